@@ -139,6 +139,19 @@ def run_case(case):
                 if not (np.array_equal(flat[:n], states) and (flat[n:] == 0).all()):
                     return dict(status="violation", kind="layout",
                                 detail=f"n={n} mb={mb} d={d}: prepared layout is not 'states in order, then zeros'")
+                # ---- the same processor used again with other state arrays (other contents, other dtypes)
+                for alt in (states.astype(np.float64) + 0.125, (states.astype(np.int64) + 16777217).astype(np.int32),
+                            states[::-1].copy(), (states % 2).astype(bool), states.astype(np.float32) / 8):
+                    try:
+                        p2 = np.asarray(bp.prepare_batches(jnp.asarray(alt)))
+                    except Exception as e:  # noqa: BLE001
+                        return dict(status="violation", kind="target-exception",
+                                    detail=f"prepare_batches n={n} mb={mb} d={d} (repeated call, {alt.dtype} states): {type(e).__name__}: {e}")
+                    f2 = p2.reshape(-1, 2)
+                    if p2.dtype != alt.dtype or p2.shape != (D, B, bs, 2) or not np.array_equal(f2[:n], alt) or f2[n:].any():
+                        return dict(status="violation", kind="layout",
+                                    detail=f"n={n} mb={mb} d={d}: a repeated prepare_batches call on the same processor with "
+                                           f"{alt.dtype} states is not 'these states in order, then zeros' (got dtype {p2.dtype}, first row {f2[0].tolist()} for {alt[0].tolist()})")
                 # ---- unbatch round trip with trailing dims
                 for trail in ((), (3,), (2, 2)):
                     tot = D * B * bs
